@@ -5,6 +5,7 @@ package main
 
 import (
 	"fmt"
+	"strings"
 	"sync"
 
 	"verifharness/wire"
@@ -164,7 +165,7 @@ func (f *fakeSrv) Reply(p wire.Pkt) []byte {
 		}
 		fallthrough
 	case wire.Stat:
-		if f.statMissing && q.Path != "probe" && q.Path != "probe2" {
+		if f.statMissing && q.Path != "probe" && q.Path != "probe2" && !strings.HasPrefix(q.Path, "race-") {
 			return wire.StatusFrame(q.ID, wire.NoSuchFile, "no such file")
 		}
 		return wire.AttrsFrame(q.ID, f.attrs(q.Path == "dir"))
@@ -192,7 +193,7 @@ func (f *fakeSrv) Reply(p wire.Pkt) []byte {
 	case wire.Write, wire.Setstat, wire.Fsetstat, wire.Rename, wire.Symlink:
 		return ok()
 	case wire.Mkdir:
-		if f.mkdirFails {
+		if f.mkdirFails && !strings.HasPrefix(q.Path, "race-") {
 			return wire.StatusFrame(q.ID, wire.Failure, "mkdir refused")
 		}
 		return ok()
